@@ -73,14 +73,24 @@ if marker in doc:
         out["doc_example"] = {"error": f"{type(e).__name__}: {e}", "source": src}
     finally:
         import shutil; shutil.rmtree(d, ignore_errors=True)
+if len(sys.argv) > 2:
+    spec = importlib.util.spec_from_file_location("sv_corpus", sys.argv[2])
+    mod = importlib.util.module_from_spec(spec)
+    spec.loader.exec_module(mod)
+    for k, fn in sorted(vars(mod).items()):
+        if k.startswith("prog_") and inspect.isfunction(fn):
+            try:
+                out["corpus:" + k] = dump(fn)
+            except Exception as e:
+                out["corpus:" + k] = {"error": f"{type(e).__name__}: {e}"}
 json.dump(out, sys.stdout)
 '''
 
 
-def compiler_output(repo: Repo) -> dict:
+def compiler_output(repo: Repo, corpus_path: str | None = None) -> dict:
     env = dict(os.environ, PYTHONPATH=str(repo.root), PYTHONDONTWRITEBYTECODE="1")
-    p = subprocess.run([sys.executable, "-c", HELPER, str(repo.root)], capture_output=True, text=True,
-                       cwd=str(repo.root), env=env, timeout=120)
+    argv = [sys.executable, "-c", HELPER, str(repo.root)] + ([corpus_path] if corpus_path else [])
+    p = subprocess.run(argv, capture_output=True, text=True, cwd=str(repo.root), env=env, timeout=300)
     if p.returncode != 0:
         raise AnalysisError(RULE, f"the repository's compiler could not be queried: {p.stderr.strip()[-400:]}")
     return json.loads(p.stdout)
@@ -476,3 +486,127 @@ def rule_translation(rep: Report, repo: Repo, which=("main", "nonhermitian", "do
     rep.count("programs", programs)
     rep.count("disagreements_checked", checked)
     rep.floor(RULE, "compiled (series, class, flags) cases compared", checked, 100)
+
+
+# ---------------------------------------------------------------------------
+# corpus of programs in the documented grammar (translation validation beyond the shipped text)
+# ---------------------------------------------------------------------------
+
+CORPUS_EXPRS = [
+    '"A"', '-"A"', '"A".adj', '-"A".adj', '"A" + "B"', '"A" - "B"', '"B" - "A".adj',
+    '"A" - ("B" - "C")', '"A" - (-"B" + "C")', '"A" - (-"B")', '"A" - (-"B" - "C".adj)', '-("A" - "B")', '-(-"A")',
+    '"A" - ("B" - ("C" - "A"))', '"A" + ("B" - "C")', '("A" - "B") - ("C" - "A")', '-"A" - -"B"',
+    '("A" + "B") / 2', '("A" - "B") / -2', '"A" / 2 - "B" / -3', '-("A" + "B".adj) / 2', '"A" - ("B" + "C") / 2',
+    '"A" - ("B" - "C".adj) / -2', '("A" - ("B" - "C")) / 4', '-"A" / 2',
+    'f("A")', 'f("A" + "B")', '-f("A" - "B")', '"A" + f("B @ C")', 'f("A".adj)', 'f(-"A")', '"A" - f("B" - (-"C"))',
+    'f("A" - f("B"))', 'f("A") / 2', '"A" - (f("B") - "C")',
+    '"B @ C" - "B @ C".adj', '("B @ C" + "B @ C".adj) / 2', '"A" - ("B @ C" - "A @ C".adj)',
+    'zero', '"A" + zero', 'zero if two_block_optimized else "A" - ("B" - "C")',
+    '"A" if commuting_blocks[index[0]] else -("A" - "B")',
+]
+CORPUS_SHAPES = [
+    # (marker, [(cond, slot)...]) -- slots are filled with rotating expressions
+    (None, [("default", 0)]),
+    (None, [("diagonal", 0), ("offdiagonal", 1)]),
+    (None, [("offdiagonal", 0), ("default", 1)]),
+    ("hermitian", [("diagonal", 0), ("offdiagonal", 1)]),
+    ("antihermitian", [("offdiagonal", 0)]),
+    (None, [("diagonal", 0), ("diagonal", 1), ("default", 2)]),
+]
+
+
+def corpus_source() -> str:
+    lines = ["# type: ignore", "# generated corpus of mini-language programs (never executed, only compiled)", ""]
+    k = 0
+    n = len(CORPUS_EXPRS)
+    for i in range(n):
+        marker, slots = CORPUS_SHAPES[i % len(CORPUS_SHAPES)]
+        lines.append(f"def prog_{k:03d}():")
+        lines.append('    with "S":')
+        lines.append(f"        start = {i % 2}")
+        if marker:
+            lines.append(f"        {marker}")
+        for cond, slot in slots:
+            e = CORPUS_EXPRS[(i + 7 * slot) % n]
+            if cond == "default":
+                lines.append(f"        {e}")
+            else:
+                lines.append(f"        if {cond}:")
+                lines.append(f"            {e}")
+        lines.append('    with "C":')
+        lines.append("        start = 0")
+        lines.append('        "A" - "S"')
+        lines.append('    with "B @ C":')
+        lines.append("        pass")
+        lines.append('    with "A @ C":')
+        lines.append("        hermitian" if i % 3 == 0 else "        pass")
+        lines.append('    return "S", "C"')
+        lines.append("")
+        k += 1
+    return "\n".join(lines)
+
+
+def rule_translation_corpus(rep: Report, repo: Repo):
+    """Compile a generated corpus of programs with the repository's compiler and compare every
+    (series, index class, offdiag given, flags) case with the reference translation."""
+    import tempfile
+
+    R = "E9.corpus"
+    src = corpus_source()
+    d = tempfile.mkdtemp(prefix="sv-corpus-")
+    try:
+        path = os.path.join(d, "sv_corpus.py")
+        with open(path, "w") as fh:
+            fh.write(src)
+        out = compiler_output(repo, path)
+    finally:
+        import shutil
+        shutil.rmtree(d, ignore_errors=True)
+    tree = ast.parse(src)
+    funcs = {n.name: n for n in tree.body if isinstance(n, ast.FunctionDef)}
+    programs = checked = 0
+    loc = repo.rel("algorithm_parsing")
+    for name, func in sorted(funcs.items()):
+        data = out.get("corpus:" + name)
+        if data is None:
+            raise AnalysisError(R, f"corpus program {name} missing from the compiler query")
+        prog = read_program(func)
+        text = "; ".join(f"[{b.cond}] {norm(b.node.body[0] if isinstance(b.node, ast.If) else b.node)}" for b in prog.series["S"].branches)
+        if "error" in data:
+            rep.fail(R, f"corpus program `S: {text}` is rejected by the compiler: {data['error'][:120]}", "", loc)
+            continue
+        programs += 1
+        gen = {s["name"]: s for s in data["series"]}
+        flags_list = [{"two_block_optimized": a, "commuting_blocks": b} for a in (False, True) for b in (False, True)] \
+            if prog.flags() else [{"two_block_optimized": False, "commuting_blocks": False}]
+        bad = None
+        for sname in prog.series:
+            gfunc = ast.parse(gen[sname]["src"]).body[0]
+            for flags in flags_list:
+                for cls in ("diagonal", "upper", "lower"):
+                    for og in (False, True):
+                        want = reference(prog, sname, cls, og, flags)
+                        checked += 1
+                        gi = GenInterp(cls, og, flags, f"{name}::{sname}[{cls}]")
+                        try:
+                            got = gi.run(gfunc)
+                        except Disagreement as dis:
+                            got = {("badcall", "?", str(dis)): Fr(1)}
+                        if got != want and bad is None:
+                            bad = (sname, cls, og, got, want)
+            want_start = START_KEY.get(prog.series[sname].start)
+            if gen[sname]["start"] != want_start and bad is None:
+                bad = (sname, "start", False, {("ref", str(gen[sname]["start"]), False, False): Fr(1)}, {("ref", str(want_start), False, False): Fr(1)})
+        gp = {" @ ".join(p["terms"]): p["hermitian"] for p in data["products"]}
+        if gp != {n: p.hermitian for n, p in prog.products.items()} and bad is None:
+            bad = ("products", "flags", False, {}, {})
+        if bad is None:
+            rep.ok(R, f"corpus program `S: {text[:110]}` compiled = reference", "", loc)
+        else:
+            sname, cls, og, got, want = bad
+            rep.fail(R, f"corpus program `S: {text}`: series {sname} [{cls}{', offdiag given' if og else ''}] compiled `{lc_show(got)}` but the definition says `{lc_show(want)}`",
+                     "the compiler changes the meaning of a program of the documented grammar", loc)
+    rep.count("programs", programs + rep.analysed.get("programs", 0))
+    rep.count("disagreements_checked", checked + rep.analysed.get("disagreements_checked", 0))
+    rep.count("corpus_programs", programs)
+    rep.floor(R, "corpus programs compiled", programs, 30)
